@@ -26,7 +26,7 @@ HIST_TECH = "deterministic simulation: seeded operation-and-fault histories (inc
 
 CHECKS = [
     ("C06", "hist", "exploration", "4 C06",
-     "Sequential-conformance tier of the history engine: seeded histories of 2-24 operations over up to four live indexes (different commons, 1-D/2-D, 3-D for slicing) are executed on the real objects and on a dense NumPy model; after every step every live index must decode (own decoder and to_array(dtype=int)) to its model, non-receiver operands must be byte-identical to their snapshots and requested copies must share no storage. Sampling over histories.",
+     "Sequential-conformance tier of the history engine: ten scripted boundary histories plus seeded histories of 2-24 operations over up to four live indexes (different commons, 1-D/2-D, 3-D for slicing; operands as arrays, strided views, lists, tuples, ranges; mappings as dict, defaultdict, __missing__ subclass) are executed on the real objects and on a dense NumPy model; after every step every live index must decode (own decoder and to_array(dtype=int)) to its model, non-receiver operands must be byte-identical to their snapshots and requested copies must share no storage. Sampling over histories.",
      HIST_NOTE, HIST_TECH),
     ("C07", "hist", "exploration", "4 C07",
      "Same histories as C06; after every step every live index (and every slice yielded by slices1d, every from_array result, every reload from the simulated disk) must satisfy validate(True) plus dtype, strict ordering, range, arity, coordinate-in-shape, non-emptiness, no-common-entry, and the derived abscissae/sparsity identities; two well-formed 1-D indexes over the same rows must be crossable by ccube. Sampling over histories.",
@@ -35,15 +35,15 @@ CHECKS = [
      "Same histories as C06; after every library-chosen normalisation (shift_common(), append, filtered, collapsed, from_array without common) the chosen common must be a most frequent value of the dense content; after every step ==/!= are evaluated over all pairs of live indexes and their directly-built twins and must coincide with (shape, common, dense content) equality, never raise, and be False against non-indexes. Sampling over histories.",
      HIST_NOTE, HIST_TECH),
     ("C16", "sched", "exploration", "4 C16",
-     "Pooled evaluation under a seeded scheduler: real worker threads pass a baton, a pre-emption point precedes every bytecode instruction of catii code (sys.monitoring), and a seeded strategy (run-to-completion, uniform p, PCT, targeted pre-empt/resume) decides every context switch; each workload (both cube types, 3-24 sub-cubes, 1-3 aggregates together, pool sizes 1-16) is evaluated serially once and pooled under several schedules, and every pooled output must equal the serial one in type, dtype, shape and bits. Sampling over workloads and schedules.",
+     "Pooled evaluation under a seeded scheduler: real worker threads pass a baton, a pre-emption point precedes every bytecode instruction of catii code (sys.monitoring) and every task start, and a seeded strategy (run-to-completion, uniform p, PCT, targeted pre-empt/resume, burst, lockstep, ladder of fixed offsets) decides every context switch; evaluations run on brand-new objects and on cubes that were already served or interrupted once, with and without warnings turned into errors; each workload (both cube types, 3-24 sub-cubes, 1-3 aggregates together, pool sizes 1-16) is evaluated serially once and pooled under several schedules, and every pooled output must equal the serial one in type, dtype, shape and bits. Sampling over workloads and schedules.",
      SCHED_NOTE,
      "deterministic simulation: seeded instruction-granular thread scheduler behind a ThreadPool stub; differential (pooled vs serial) bit comparison; replay = explicit context-switch list"),
     ("C17", "sched", "exploration", "4 C17",
-     "Call histories over shared objects (two dimension lists, fact/weight variables with garbage under False validity, two cubes, 2-5 aggregate objects): calculate of sub-lists in random order run serially, pooled under seeded schedules, or interrupted by an injected raise; shortcut methods; the same aggregate objects on another cube; new cubes; non-mutating index methods. After every call all shared arguments are byte-compared with snapshots, every result is compared bit for bit with the aggregate evaluated alone on fresh copies, and all earlier results with their own snapshots. Sampling over sessions.",
+     "Call histories over shared objects (dimension lists for four cubes: two over the same rows, one over another row count, one dimensionless; fact/weight variables as plain, strided, read-only, Fortran-ordered arrays or lists with garbage under False validity; 2-5 aggregate objects), including caller-side edits between calls (a dimension index re-encoded in place, a fact array rewritten in place): calculate of sub-lists in random order run serially, pooled under seeded schedules, or interrupted by an injected raise; shortcut methods; the same aggregate objects on another cube; new cubes; non-mutating index methods. After every call all shared arguments are byte-compared with snapshots, every result is compared bit for bit with the aggregate evaluated alone on fresh copies, and all earlier results with their own snapshots. Sampling over sessions.",
      SCHED_NOTE + " The isolated serial evaluation of one aggregate on fresh objects is the reference.",
      "deterministic simulation: seeded call-and-fault histories over shared objects (serial, scheduled-pooled and interrupted calls), snapshot and isolated re-evaluation oracles"),
     ("C20", "sched", "fault_enumeration", "4 C20",
-     "The fault injector is the check_interrupt callback: for each workload a raise at EVERY invocation index in serial mode (Exception and BaseException subclasses), and in pooled mode singletons and seeded subsets of sub-cubes under seeded schedules and pool sizes; oracles: the raised object propagates, the callback is consulted once per sub-cube, each chunk stops at its first raise, no worker survives calculate, and a recovery calculate on the same objects (serial or pooled) equals a fresh evaluation bit for bit with inputs unchanged. Exhaustive over serial interrupt indexes per cube; sampled over cubes, pooled subsets and schedules.",
+     "The fault injector is the check_interrupt callback (a plain callable, a budget-like object with a truth value, an always-falsy, any-args, value-returning or unhashable callable object, set on the instance or supplied through a subclass): for each workload a raise at EVERY invocation index in serial mode (a subclass of one of 13 standard exception families incl. StopIteration, and a BaseException subclass), and in pooled mode singletons and seeded subsets of sub-cubes under seeded schedules and pool sizes; oracles: the raised object propagates, the callback is consulted once per sub-cube, each chunk stops at its first raise, no worker survives calculate, and a recovery calculate on the same objects (serial or pooled) equals a fresh evaluation bit for bit with inputs unchanged. Exhaustive over serial interrupt indexes per cube; sampled over cubes, pooled subsets and schedules.",
      SCHED_NOTE + " Pooled interrupts are Exception subclasses only (the real worker loop catches Exception only).",
      "deterministic simulation with fault injection: interrupt injection at every cancellation point (serial, exhaustive) and at subsets x seeded schedules (pooled), followed by recovery calls"),
     ("C10", "disk", "exploration", "4 C10",
@@ -55,7 +55,7 @@ CHECKS = [
      "Trusts sim/refcodec.py as a faithful reading of the IndxIO docstring; stand-in arrays replace real >=4 GiB row-id arrays.",
      "deterministic simulation: two parties (library, independent INDX codec) exchanging files over a simulated disk; differential byte comparison"),
     ("C12", "disk", "fault_enumeration", "4 C12",
-     "Fault arm: for each generated file the write log of the real save (Python-level writes and C-level tofile blocks) is reconstructed and EVERY byte-granular crash state is restarted and loaded; the real save is also re-run with the disk full after every byte (RLIMIT_FSIZE) with buffered and unbuffered file objects; load must raise each time. Exhaustive over cut points per file, sampled over files.",
+     "Fault arms, all followed by a restart (fresh descriptor; read-only or opened for update, raw or buffered, and for a share of the states also an in-memory stream or a pipe) and IndxIO.load, which must raise: (1) every byte-granular crash state derived from the reconstructed write log of the real save (Python-level writes and C-level tofile blocks); (2) the real save re-run with the disk full after every byte (RLIMIT_FSIZE), buffered and unbuffered; (3) the device failing (EIO, after half of a write) at every call on the file object while the real save runs; (4) the device failing at every mutating system call made around the file object (os proxy under catii.indxio), with worker threads save may start scheduled by the simulator; (5) the complete file loaded and held, then the same inode truncated in place at every byte and re-saved-and-cut; (6) big files (to 1.2 MB, thorough 17 MB) torn at sampled cut points. Exhaustive over fault points per small file, sampled over files.",
      "Crash model is the property's own (stream cut at a byte); memfd + RLIMIT_FSIZE stand for a regular file on a full disk.",
      "deterministic simulation with fault injection: exhaustive crash-point enumeration over the recorded write log + kernel-enforced full-disk faults during the real save, then restart and load"),
 ]
